@@ -5,7 +5,7 @@
 From Coq Require Import String List ZArith Bool.
 From Coq Require Import Ascii NArith.
 From PV Require Import Model_scsv Proofs_scsv Model_scsv_frame Proofs_scsv_frame Model_scsv_header Proofs_scsv_header.
-From PV Require Import Model_scsv_py Gen_scsv Inst_scsv Inst_scsv_save.
+From PV Require Import Model_scsv_py Gen_scsv Inst_scsv Inst_scsv_save Proofs_scsv_faults.
 Import ListNotations.
 Open Scope string_scope.
 
@@ -402,3 +402,102 @@ Theorem C16_gen_save_is_model : forall O p s (cs : list (bool * list cell)),
   | Err e => Err e
   end = save O s (map snd cs).
 Proof. exact save_assembled_eq. Qed.
+
+(* ---- one theorem per documented fault kind, over all schemas: `refused O s` = save_scsv (any equal-length columns)
+   and read_scsv raise SCSVError ---- *)
+Theorem C16_refused_missing_key_delimiter : forall O s, sdelim s = None -> refused O s.
+Proof. exact refused_missing_key_delimiter. Qed.
+Theorem C16_refused_missing_key_missing : forall O s, smissing s = None -> refused O s.
+Proof. exact refused_missing_key_missing. Qed.
+Theorem C16_refused_missing_key_fields : forall O s, sfields s = None -> refused O s.
+Proof. exact refused_missing_key_fields. Qed.
+Theorem C16_refused_no_fields : forall O s, sfields s = Some [] -> refused O s.
+Proof. exact refused_no_fields. Qed.
+Theorem C16_refused_delimiter_equals_missing : forall O s d, sdelim s = Some d -> smissing s = Some d -> refused O s.
+Proof. exact refused_delimiter_equals_missing. Qed.
+Theorem C16_refused_delimiter_in_missing : forall O s d m,
+  sdelim s = Some d -> smissing s = Some m -> contains m d = true -> refused O s.
+Proof. exact refused_delimiter_in_missing. Qed.
+(* the faults of one field, all fields before it being fine *)
+Theorem C16_refused_name_not_identifier : forall O s pre f post n,
+  sfields s = Some (pre ++ f :: post)%list -> validate_fields O pre = Ok true ->
+  fname f = Some (YStr n) -> o_is_ident O n = false -> refused O s.
+Proof. exact refused_name_not_identifier. Qed.
+Theorem C16_refused_unknown_type : forall O s pre f post n,
+  sfields s = Some (pre ++ f :: post)%list -> validate_fields O pre = Ok true ->
+  fname f = Some (YStr n) -> typemap (type_of f) = None -> refused O s.
+Proof. exact refused_unknown_type. Qed.
+Theorem C16_refused_numeric_without_fill : forall O s pre f post n t,
+  sfields s = Some (pre ++ f :: post)%list -> validate_fields O pre = Ok true ->
+  fname f = Some (YStr n) -> typemap (type_of f) = Some t -> (t = TInt \/ t = TFloat \/ t = TCplx) ->
+  ffill f = None -> refused O s.
+Proof. exact refused_numeric_without_fill. Qed.
+
+(* column count: with at least one row a data set is written only if it has one column per field ... *)
+Theorem C16_wrong_column_count_never_written : forall O s data rows fs,
+  save O s data = Ok rows -> sfields s = Some fs -> nrows_of data <> 0 -> length data = length fs.
+Proof. exact wrong_column_count_never_written. Qed.
+(* ... and it is refused with SCSVError when the cells its first row shares with the fields are accepted *)
+Theorem C16_wrong_column_count_refused : forall O s d m fs tfs c0 rest row0 R,
+  validate_schema O s = Ok true -> sdelim s = Some d -> smissing s = Some m -> sfields s = Some fs ->
+  field_types fs = Ok tfs -> o_delim_err O d = None ->
+  Forall (fun c => length c = length c0) rest ->
+  zipn (length c0) (c0 :: rest) = row0 :: R ->
+  ((exists pre extra, row0 = (pre ++ extra)%list /\ Forall2 (accepted O m) pre tfs /\ extra <> []) \/
+   (exists pre extra, tfs = (pre ++ extra)%list /\ Forall2 (accepted O m) row0 pre /\ extra <> [])) ->
+  save O s (c0 :: rest) = Err SCSV.
+Proof. exact wrong_column_count_refused. Qed.
+
+(* ---- the round trip of ONE cell, every type: what save_scsv writes for a representable cell is read back as the
+   cell (given a re-loaded fill that means the same), and the text is the missing marker exactly when the == / NaN
+   chain selects the cell ---- *)
+Theorem C16_cell_roundtrip : forall O k m t v v' d,
+  plain m = true -> cell_ok O k m t v d = true -> fill_faithful O t v v' ->
+  exists x, save_cell O m t v d = Ok x /\ parse_cell O t x m v' = Ok d /\
+            (x = m <-> substituted O t v d = Ok true).
+Proof. exact cell_roundtrip. Qed.
+
+(* what "the text layer reads the cell's text back" asks, type by type: nothing for strings and booleans; for the
+   numeric types Python's guarantees int(str(z)) == z (any size), float(repr(x)) == x as tokens (NaN, infinities,
+   negative zero), complex(str(c)) == c -- checked on every number of every generated case *)
+Theorem C16_text_clause_by_type : forall O,
+  (forall s, cl_text_rt O TStr (CStr s) = true) /\
+  (forall b, cl_text_rt O TBool (CBool b) = true) /\
+  (forall z, cl_text_rt O TInt (CInt z) = true <-> o_int_of O (o_str_int O z) = Ok z) /\
+  (forall f, cl_text_rt O TFloat (CFloat f) = true <-> o_float_of O (fstr f) = Ok f) /\
+  (forall re im, cl_text_rt O TCplx (CCplx re im) = true <-> o_cplx_of O (o_str_cplx O re im) = Ok (re, im)).
+Proof. exact text_clause_by_type. Qed.
+
+(* cells equal to the fill: for ANY fill value of a non-boolean field ('' , NaN, numbers as text or as numbers) the
+   cell t(fill) is selected by the chain, written as the missing marker, and the marker is read back as read_fill --
+   which is t(fill) again unless the fill is the text "NaN" (then t(nan): the same for float / complex, the open
+   finding string-fill-NaN for strings) *)
+Theorem C16_fill_cell_is_substituted : forall O t v c, t <> TBool -> conv O t v = Ok c -> substituted O t v c = Ok true.
+Proof. exact fill_cell_is_substituted. Qed.
+Theorem C16_fill_cell_roundtrip : forall O m t v c,
+  plain m = true -> t <> TBool -> conv O t v = Ok c ->
+  (exists y, parse_cell O t (pystr O c) m v = Ok y) ->
+  save_cell O m t v c = Ok m /\ parse_cell O t m m v = read_fill O t v /\
+  (is_NaN_text v = false -> parse_cell O t m m v = Ok c).
+Proof. exact fill_cell_roundtrip. Qed.
+(* any NaN cell of a float / complex field with a NaN fill is written as the missing marker *)
+Theorem C16_nan_cell_is_substituted : forall O t v d c,
+  (t = TFloat \/ t = TCplx) -> cell_isnan d = Ok true -> conv O t v = Ok c -> cell_isnan c = Ok true ->
+  substituted O t v d = Ok true.
+Proof. exact nan_cell_is_substituted. Qed.
+
+(* by computation on the toy oracle: fill '' (string), NaN fill given as text, -0.0 fill, integer fill with marker '';
+   one column too many / too few; each schema fault on the example schema *)
+Example C16_fault_examples :
+  fill_cell_roundtrip_stmt toyO "-" TStr (YStr "") (CStr "") /\
+  fill_cell_roundtrip_stmt toyO "-" TFloat (YStr "NaN") (CFloat FNan) /\
+  fill_cell_roundtrip_stmt toyO "-" TFloat (YStr "-0.0") (CFloat (FFin "-0.0")) /\
+  fill_cell_roundtrip_stmt toyO "" TInt (YInt 5) (CInt 5) /\
+  save toyO ex_schema (ex_data ++ [[CStr "x"; CStr "y"]])%list = Err SCSV /\
+  save toyO ex_schema (removelast ex_data) = Err SCSV /\
+  save toyO (mkSchema None (Some "-") (sfields ex_schema)) ex_data = Err SCSV /\
+  save toyO (mkSchema (Some ",") (Some "a,b") (sfields ex_schema)) ex_data = Err SCSV /\
+  save toyO (sch "," "-" [fld "bad name" "string" None]) [[CStr "x"]] = Err SCSV /\
+  save toyO (sch "," "-" [fld "a" "decimal" None]) [[CStr "x"]] = Err SCSV /\
+  save toyO (sch "," "-" [fld "a" "float" None]) [[CFloat FNan]] = Err SCSV.
+Proof. exact fault_examples_proof. Qed.
